@@ -316,7 +316,7 @@ func (r *runner) compareSearch(label string, s *Search, corpus *model.Corpus) bo
 			}
 		}
 	}
-	if len(s.Aggs) > 0 {
+	if len(s.Aggs) > 0 && !r.c.Oracles.NoAggs {
 		got := padAggs(res.Aggs, len(s.Aggs))
 		if len(got) != len(s.Aggs) {
 			r.violate("aggregation", "%s: %d aggregations requested, %d returned", label, len(s.Aggs), len(res.Aggs))
@@ -668,6 +668,14 @@ func (r *runner) asyncStart(a *AsyncReq) {
 		sr := simenv.SearchReq{Aggs: []simenv.AggReq{ag}}
 		req.Aggs = append(req.Aggs, sr.Proto().Aggs[0])
 	}
+	// everything acknowledged so far is to be part of the answer: it has to be through the index workers
+	// (acknowledged is not yet visible), whatever the script did before
+	if res := r.st.WaitIdle(opTimeout); res != "done" {
+		if res == "timeout" {
+			r.violate("hang", "WaitIdle did not finish\n%s", r.s.DumpTasks())
+		}
+		return
+	}
 	// "the fractions that existed when it was started"
 	r.asyncBase[a.ID] = len(r.bulkOrder)
 	r.asyncFracs[a.ID] = map[string]bool{}
@@ -835,6 +843,9 @@ func (r *runner) asyncWait(a *AsyncReq) {
 		return
 	}
 	for i, ag := range s.Aggs {
+		if r.c.Oracles.NoAggs {
+			break
+		}
 		if msg := checkAgg(ag, gotAggs[i], want); msg != "" {
 			r.violate("async_result", "asynchronous search %q agg %+v: %s", s.Q.SeqQL(), ag, msg)
 			return
